@@ -342,3 +342,18 @@ Section Delim.
       rewrite Z.leb_refl. rewrite join_app_one; [|apply split_on_nonempty]. rewrite join_split. reflexivity.
   Qed.
 End Delim.
+
+(* non-vacuity: a replacement without create that finds its field (container x only: the list holds no near miss) *)
+Example copy_value_example :
+  let pod := Map [("spec", Map [("containers", Seq [Map [("name", Scalar TStr SPlain "x"); ("image", Scalar TStr SPlain "i:1")];
+                                                   Map [("name", Scalar TStr SPlain "web"); ("image", Scalar TStr SPlain "j:2")]])])] in
+  create_kind None (Scalar TStr SPlain "new") = None /\
+  copy_value_to_target (parse_of [("x", Some (lit "x"))]) node_value (fun _ => false) 1 None (Scalar TStr SPlain "new")
+                       ["spec.containers.[name=x].image"] pod
+  = Ok (Map [("spec", Map [("containers", Seq [Map [("name", Scalar TStr SPlain "x"); ("image", Scalar TStr SPlain "new")];
+                                                Map [("name", Scalar TStr SPlain "web"); ("image", Scalar TStr SPlain "j:2")]])])]).
+Proof. split; vm_compute; reflexivity. Qed.
+
+Example splice_example :
+  splice (mkFO ":" 1%Z false) "reg:5000/x:1" "9000/y" = "reg:9000/y:1" /\ free ":"%char "9000/y" = true.
+Proof. split; vm_compute; reflexivity. Qed.
